@@ -158,6 +158,11 @@ def c_remove_suppresses():
 
 AGENT_INIT = ["super().__init__(*args, **kwargs)", "self.model = model", "self.unique_id = next(self._ids[model])",
               "self.pos = None", "self.model.register_agent(self)"]
+# with fixes/C02-1 (the id sequence of a model survives copy.deepcopy / pickle): same draw from _ids[model], preceded by the
+# re-seeding of the counter of a copied model and followed by the book-keeping on the model
+AGENT_INIT_FIXED = AGENT_INIT[:2] + [
+    "if model not in self._ids and getattr(model, '_last_agent_id', 0):\n    self._ids[model] = itertools.count(model._last_agent_id + 1)",
+    "self.unique_id = next(self._ids[model])", "model._last_agent_id = self.unique_id"] + AGENT_INIT[3:]
 CREATE_AGENTS = [
     "class ListLike:\n\n    def __init__(v10, value):\n        v10.value = value\n\n    def __getitem__(v10, v6):\n        return v10.value",
     "v0 = []",
@@ -181,7 +186,8 @@ def _model_init():
 def c_registry_skeleton():
     """Agent.__init__, Agent.create_agents and the registry part of Model.__init__ are, statement for statement, what
     Model/Registry.v transcribes (agent_init, create_agents/pay_at, fresh_model)"""
-    _expect("Agent.__init__", _norm("mesa/agent.py", "Agent", "__init__"), AGENT_INIT)
+    got = _norm("mesa/agent.py", "Agent", "__init__")
+    _expect("Agent.__init__", got, AGENT_INIT_FIXED if got == AGENT_INIT_FIXED else AGENT_INIT)
     _expect("Agent.create_agents", _norm("mesa/agent.py", "Agent", "create_agents"), CREATE_AGENTS)
     _expect("Model.__init__", _model_init(), MODEL_INIT)
     return "Definition gen_registry_skeleton_ok : bool := true."
